@@ -212,7 +212,8 @@ class NMAP(Application, discriminator="nmap"):
 
         ip_addresses = self._explode_ip_address_network_array(target_ip_address)
 
-        for ip_address in ip_addresses:
+        # iterate in address order: the iteration order of a set of IPv4Address depends on PYTHONHASHSEED
+        for ip_address in sorted(ip_addresses):
             # Prevent ping scan on this node
             if self.software_manager.node.ip_is_network_interface(ip_address=ip_address):
                 continue
@@ -369,7 +370,8 @@ class NMAP(Application, discriminator="nmap"):
             table.align = "l"
             table.title = f"{self.software_manager.node.config.hostname} NMAP Port Scan ({scan_type})"
         self.sys_log.info(f"{self.name}: Starting port scan")
-        for ip_address in ip_addresses:
+        # iterate in address order: the iteration order of a set of IPv4Address depends on PYTHONHASHSEED
+        for ip_address in sorted(ip_addresses):
             # Prevent port scan on this node
             if self.software_manager.node.ip_is_network_interface(ip_address=ip_address):
                 continue
